@@ -329,6 +329,10 @@ def execute(case):
     start = lb + 1 - origin
     end = la - origin
     body = image[start:end]
+    if len(image) != end + 1 or image[end:end + 1] != b"\x12":
+        # the NOP labelled ZZA is the last byte-emitting statement: the bytes in front of it are exactly those reserved
+        return viol("{!r}: the image has {} bytes, the statements reserve {} (ZZA at ${:04X}): {}.".format(
+            src, len(image), end + 1, la, image.hex()[:80]) + ctx, fid=fid + "image-size", labels=labels)
     r = evaluate(case, terms, lb, la)
     if r is None:
         return viol("{!r}: division by zero accepted (bytes {}).".format(src, body.hex()) + ctx, fid=fid + "div0", labels=labels)
